@@ -18,7 +18,7 @@ Proof. reflexivity. Qed.
 Lemma query_at_cut_spec c qt : query_at_cut c qt = spec_at_cut c qt.
 Proof. reflexivity. Qed.
 
-Lemma here_spec n qt : here_but_not_below n qt = spec_at (info_of n) qt.
+Lemma here_spec n qt : here_but_not_below n qt = spec_at (cinfo n) qt.
 Proof. destruct n as [r s cs]. destruct s as [[c|c|]|]; reflexivity. Qed.
 
 (* ------------------------------------------------------------------ names *)
@@ -35,18 +35,67 @@ Qed.
 Lemma name_eqb_cons l a b : name_eqb (l :: a) (l :: b) = name_eqb a b.
 Proof. simpl. rewrite N.eqb_refl. reflexivity. Qed.
 
+(* ------------------------------------------------------------------ existence *)
+Lemma node_exists_unfold rs sp cs :
+  node_exists (Node rs sp cs) =
+  negb (rrsets_is_empty rs)
+  || match sp with Some (Cut _) => true | Some (Cname _) => true | _ => false end
+  || existsb (fun lc => node_exists (snd lc)) cs.
+Proof.
+  cbn [node_exists]. f_equal. induction cs as [|[l c] cs IH]; simpl; auto. rewrite IH. reflexivity.
+Qed.
+
+Lemma dead_child n l d : node_exists n = false -> find_child l (n_children n) = Some d -> node_exists d = false.
+Proof.
+  destruct n as [rs sp cs]. rewrite node_exists_unfold. intro H.
+  apply orb_false_iff in H. destruct H as [_ H]. simpl.
+  induction cs as [|[k c] cs IH]; simpl; [discriminate|].
+  simpl in H. apply orb_false_iff in H. destruct H as [H1 H2].
+  destruct (k =? l); [intro E; inversion E; subst; exact H1|auto].
+Qed.
+
+Lemma dead_below : forall p n y, node_exists n = false -> node_at n p = Some y -> node_exists y = false.
+Proof.
+  induction p as [|l p IH]; intros n y Hn Hy; simpl in Hy.
+  - inversion Hy; subst; exact Hn.
+  - destruct (find_child l (n_children n)) as [d|] eqn:E; [|discriminate].
+    eapply IH; [eapply dead_child; eauto|exact Hy].
+Qed.
+
 (* ------------------------------------------------------------------ views of subtrees *)
 Definition shift (V : view) (l : label) : view := fun p => V (l :: p).
 
-Lemma view_of_child n l c : find_child l (n_children n) = Some c ->
-  forall p, view_of c p = shift (view_of n) l p.
-Proof. intros H p. unfold shift, view_of. simpl. rewrite H. reflexivity. Qed.
+Lemma lview_child n l c : find_child l (n_children n) = Some c -> node_exists c = true ->
+  forall p, lview c p = shift (lview n) l p.
+Proof.
+  intros H He p. unfold shift, lview. cbn [node_at]. rewrite H.
+  destruct p as [|l' r]; simpl; [rewrite He; reflexivity|reflexivity].
+Qed.
 
-Lemma view_of_nochild n l : find_child l (n_children n) = None ->
-  forall p, view_of n (l :: p) = None.
-Proof. intros H p. unfold view_of. simpl. rewrite H. reflexivity. Qed.
+Lemma find_existing_some l cs c : find_existing l cs = Some c -> find_child l cs = Some c /\ node_exists c = true.
+Proof.
+  unfold find_existing. destruct (find_child l cs) as [d|]; [|discriminate].
+  change children_filtered_by_exists with true. cbn iota.
+  destruct (node_exists d) eqn:E; [|discriminate]. intro H. inversion H; subst. auto.
+Qed.
 
-Lemma view_of_root n : view_of n [] = Some (info_of n).
+Lemma lview_nochild n l : find_existing l (n_children n) = None -> forall p, lview n (l :: p) = None.
+Proof.
+  unfold find_existing. intros H p. unfold lview. cbn [node_at].
+  destruct (find_child l (n_children n)) as [d|] eqn:E; [|reflexivity].
+  change children_filtered_by_exists with true in H. cbn iota in H.
+  destruct (node_exists d) eqn:Ed; [discriminate|].
+  destruct (node_at d p) as [y|] eqn:Ey; [|reflexivity].
+  rewrite (dead_below _ _ _ Ed Ey). reflexivity.
+Qed.
+
+Lemma lview_one n l : lview n [l] = option_map cinfo (find_existing l (n_children n)).
+Proof.
+  unfold lview, find_existing. cbn [node_at]. destruct (find_child l (n_children n)) as [d|]; [|reflexivity].
+  change children_filtered_by_exists with true. cbn iota. simpl. destruct (node_exists d); reflexivity.
+Qed.
+
+Lemma lview_root n : lview n [] = Some (cinfo n).
 Proof. reflexivity. Qed.
 
 (* ------------------------------------------------------------------ find_map / prefixes under shift *)
@@ -125,30 +174,6 @@ Proof.
   rewrite E. reflexivity.
 Qed.
 
-(* ------------------------------------------------------------------ the marker is closed downwards *)
-Definition all_marked (n : node) : Prop :=
-  forall p y, node_at n p = Some y -> n_special y = Some NxDomain.
-
-Definition nx_closed (n : node) : Prop :=
-  forall p x, node_at n p = Some x -> n_special x = Some NxDomain -> all_marked x.
-
-Lemma nx_closed_child n l c : nx_closed n -> find_child l (n_children n) = Some c -> nx_closed c.
-Proof. intros H Hc p x Hp. apply (H (l :: p)). simpl. rewrite Hc. exact Hp. Qed.
-
-Lemma all_marked_vnode n q qt : all_marked n -> vnode (view_of n) q qt = spec_nxdomain.
-Proof.
-  intros H. unfold vnode.
-  assert (Hc : find_cut0 (view_of n) q = None).
-  { apply find_map_none. intros p. unfold cut_of, view_of. destruct (node_at n p) as [y|] eqn:E; simpl; auto.
-    rewrite (H _ _ E). reflexivity. }
-  rewrite Hc. unfold vrest.
-  assert (Hi : forall p i, view_of n p = Some i -> spec_at i qt = spec_nxdomain).
-  { intros p i. unfold view_of. destruct (node_at n p) as [y|] eqn:E; simpl; [|congruence].
-    intros Hy. inversion Hy; subst. unfold spec_at. simpl. rewrite (H _ _ E). reflexivity. }
-  destruct (view_of n q) eqn:E1; [eapply Hi; eauto|].
-  destruct (view_of n (closest_encloser (view_of n) q ++ [wild_label])) eqn:E2; [eapply Hi; eauto|]. reflexivity.
-Qed.
-
 (* ------------------------------------------------------------------ query_node = vnode *)
 Lemma vnode_step V l q qt : cut_of V [] = None -> vexists V [l] = true ->
   vnode V (l :: q) qt = vnode (shift V l) q qt.
@@ -168,73 +193,65 @@ Proof.
 Qed.
 
 Lemma children_step q
-  (IH : forall n qt, nx_closed n -> query_node n q qt = vnode (view_of n) q qt) l n qt :
-  nx_closed n -> cut_of (view_of n) [] = None ->
-  query_children (fun c => query_node c q qt) (n_children n) l qt = vnode (view_of n) (l :: q) qt.
+  (IH : forall n qt, query_node n q qt = vnode (lview n) q qt) l n qt :
+  cut_of (lview n) [] = None ->
+  query_children (fun c => query_node c q qt) (n_children n) l qt = vnode (lview n) (l :: q) qt.
 Proof.
-  intros Hnx Hc. unfold query_children.
-  destruct (find_child l (n_children n)) as [c|] eqn:El.
-  - rewrite IH by (eapply nx_closed_child; eauto).
-    rewrite vnode_step; auto.
-    + apply vnode_ext. intro p. apply view_of_child. exact El.
-    + unfold vexists, view_of. simpl. rewrite El. reflexivity.
+  intros Hc. unfold query_children.
+  destruct (find_existing l (n_children n)) as [c|] eqn:El.
+  - destruct (find_existing_some _ _ _ El) as [Hf He].
+    rewrite IH. rewrite vnode_step; auto.
+    + apply vnode_ext. intro p. apply lview_child; assumption.
+    + unfold vexists. rewrite lview_one, El. reflexivity.
   - change children_exact_then_wildcard with true. cbn iota.
     unfold vnode. rewrite find_cut0_cons by exact Hc.
     unfold find_cut0 at 1.
-    rewrite (find_map_none (cut_of (shift (view_of n) l))).
-    2:{ intro p. unfold cut_of, shift. rewrite view_of_nochild by exact El. reflexivity. }
-    cbn [relabel]. unfold vrest. rewrite view_of_nochild by exact El.
-    rewrite ce_cons_missing; [|reflexivity|intro p; apply view_of_nochild; exact El].
-    simpl. unfold view_of. simpl.
-    destruct (find_child wild_label (n_children n)) as [w|]; simpl.
+    rewrite (find_map_none (cut_of (shift (lview n) l))).
+    2:{ intro p. unfold cut_of, shift. rewrite lview_nochild by exact El. reflexivity. }
+    cbn [relabel]. unfold vrest. rewrite lview_nochild by exact El.
+    rewrite ce_cons_missing; [|reflexivity|intro p; apply lview_nochild; exact El].
+    cbn [app]. rewrite lview_one.
+    destruct (find_existing wild_label (n_children n)) as [w|]; simpl.
     + apply here_spec.
     + apply na_nx_spec.
 Qed.
 
-Theorem query_node_vnode : forall q n qt, nx_closed n ->
-  query_node n q qt = vnode (view_of n) q qt.
+(* read.rs's descent is the closest-encloser lookup on the reader's view: no
+   condition on markers or left-over nodes any more *)
+Theorem query_node_vnode : forall q n qt, query_node n q qt = vnode (lview n) q qt.
 Proof.
-  induction q as [|l q IH]; intros n qt Hnx.
+  induction q as [|l q IH]; intros n qt.
   - simpl. unfold vnode, find_cut0, cut_of. simpl. rewrite here_spec.
-    destruct n as [r s cs]. unfold info_of; simpl. destruct s as [[c|c|]|]; simpl; auto.
+    destruct n as [r s cs]. unfold cinfo; simpl. destruct s as [[c|c|]|]; simpl; auto.
   - cbn [query_node].
-    assert (Hroot : view_of n [] = Some (info_of n)) by reflexivity.
+    assert (Hroot : lview n [] = Some (cinfo n)) by reflexivity.
     destruct (n_special n) as [[c|c|]|] eqn:Es.
-    + unfold vnode, find_cut0. simpl. unfold cut_of at 1. rewrite Hroot. unfold info_of; simpl. rewrite Es.
+    + unfold vnode, find_cut0. simpl. unfold cut_of at 1. rewrite Hroot. unfold cinfo; simpl. rewrite Es.
       simpl. rewrite na_auth_spec. reflexivity.
-    + apply children_step; auto. unfold cut_of. rewrite Hroot. unfold info_of; simpl. rewrite Es. reflexivity.
-    + change nxdomain_marker_stops_descent with true. cbn iota.
-      rewrite all_marked_vnode; [apply na_nx_spec|].
-      apply (Hnx [] n); auto.
-    + apply children_step; auto. unfold cut_of. rewrite Hroot. unfold info_of; simpl. rewrite Es. reflexivity.
+    + apply children_step; auto. unfold cut_of. rewrite Hroot. unfold cinfo; simpl. rewrite Es. reflexivity.
+    + change marker_descends_like_unmarked with true. cbn iota.
+      apply children_step; auto. unfold cut_of. rewrite Hroot. unfold cinfo; simpl. rewrite Es. reflexivity.
+    + apply children_step; auto. unfold cut_of. rewrite Hroot. unfold cinfo; simpl. rewrite Es. reflexivity.
 Qed.
 
 (* the apex: its RRsets are answered directly, below it the children are searched *)
-Theorem query_apex_vspec : forall z q qt, n_special z = None -> nx_closed z ->
-  query_apex z q qt = vspec (view_of z) q qt.
+Theorem query_apex_vspec : forall z q qt, clean (n_special z) = None ->
+  query_apex z q qt = vspec (lview z) q qt.
 Proof.
-  intros z q qt Hs Hnx.
-  assert (Hc : cut_of (view_of z) [] = None).
-  { unfold cut_of. rewrite view_of_root. unfold info_of; simpl. rewrite Hs. reflexivity. }
+  intros z q qt Hs.
+  assert (Hc : cut_of (lview z) [] = None).
+  { unfold cut_of. rewrite lview_root. unfold cinfo; simpl. rewrite Hs. reflexivity. }
   destruct q as [|l q].
-  - simpl. unfold vspec, find_cut. simpl. unfold vrest. rewrite view_of_root.
-    unfold spec_at, info_of; simpl. rewrite Hs. apply query_rrsets_spec.
+  - simpl. unfold vspec, find_cut. simpl. unfold vrest. rewrite lview_root.
+    unfold spec_at, cinfo; simpl. rewrite Hs. apply query_rrsets_spec.
   - cbn [query_apex].
-    rewrite (children_step q (fun n qt H => query_node_vnode q n qt H)); auto.
+    rewrite (children_step q (fun n qt => query_node_vnode q n qt)); auto.
     unfold vnode, vspec. rewrite find_cut0_cons by exact Hc. rewrite find_cut_cons. reflexivity.
 Qed.
-
-(* into_answer = finish with the zone's SOA *)
-Definition soa_of_tree (z : node) : option rr := get_soa z.
 
 Lemma into_answer_finish z a : into_answer z a = finish (get_soa z) a.
 Proof. unfold into_answer, finish. change soa_added_when_flag_and_present with true. rewrite andb_true_r. reflexivity. Qed.
 
-Theorem query_is_vspec : forall z q qt, n_special z = None -> nx_closed z ->
-  query z q qt = finish (get_soa z) (vspec (view_of z) q qt).
+Theorem query_is_vspec : forall z q qt, clean (n_special z) = None ->
+  query z q qt = finish (get_soa z) (vspec (lview z) q qt).
 Proof. intros. unfold query. rewrite into_answer_finish, query_apex_vspec; auto. Qed.
-
-(* a tree without any marker is trivially closed *)
-Definition no_marker (z : node) : Prop := forall p x, node_at z p = Some x -> n_special x <> Some NxDomain.
-Lemma no_marker_closed z : no_marker z -> nx_closed z.
-Proof. intros H p x Hp Hx. exfalso. eapply H; eauto. Qed.
